@@ -125,7 +125,7 @@ class C25(ByteChanSpec):
         stdout, stderr = out.getvalue(), err.getvalue()
         events.append(("cli", rc, lname, len(stdout), sorted(fs.files)))
         stats["rc:%s" % (rc,)] += 1
-        key = "%s|%s|%s|rc=%s" % (cfg_class(case.get("cfg")), self.kinds_of(case), lname, rc)
+        key = "%s|%s|%s|rc=%s" % (cfg_class(case.get("cfg") or case.get("tc")), self.kinds_of(case), lname, rc)
         if rc == "oos":
             stats["discard:out-of-scope"] += 1
             return Outcome(DISCARD, events, stats=stats, ticks=ticks)
@@ -145,6 +145,16 @@ class C25(ByteChanSpec):
             m = re.search(r"Conformance error at bit offset (\d+)\n=+\n\n(.*?)\n\n\nDetails", stdout, re.S)
             if not m or not m.group(2).strip():
                 return viol("C25/no-located-explanation", "exit 2 without 'Conformance error at bit offset <int>' + explanation; stdout starts: %r" % stdout[:300])
+            # the location printed must be the one the decoder reports for this
+            # error (its offending offset, or where it stopped reading)
+            try:
+                want_off = lib.exc.offending_offset()
+            except Exception:  # noqa: BLE001 — C02's business
+                want_off = None
+            if want_off is None:
+                want_off = lib.tell_bits
+            if want_off is not None and int(m.group(1)) != want_off:
+                return viol("C25/wrong-location", "exit 2 reports bit offset %s but the decoder locates the %s at bit offset %d" % (m.group(1), type(lib.exc).__name__, want_off))
             if "non-conformant bitstream" not in stderr:
                 return viol("C25/no-error-line", "exit 2 without the error line on stderr: %r" % stderr[-200:])
             return Outcome(OK, events, stats=stats, nontrivial=changed, key=key, ticks=ticks)
@@ -281,7 +291,7 @@ class C26(ByteChanSpec):
         stats[("observe_rc:%s" if observe else "rc:%s") % (rc,)] += 1
         stats["clock_reads"] += clock.calls
         stats["simulated_seconds"] += int(clock.simulated_span)
-        key = "%s|%s|%s|rc=%s|%s" % (cfg_class(case.get("cfg")), self.kinds_of(case), pre.verdict, rc, "opt" if observe else "default")
+        key = "%s|%s|%s|rc=%s|%s" % (cfg_class(case.get("cfg") or case.get("tc")), self.kinds_of(case), pre.verdict, rc, "opt" if observe else "default")
         if observe:
             return Outcome(OK, events, stats=stats, nontrivial=False, key=key, ticks=pre.reads)
         if exc is not None:
